@@ -279,6 +279,10 @@ def explain(term, naming, ctx, got, exp):
         hoist = ("ok", progs.canon_ref(h[1])) if h[0] == "ok" else h
         if ctx_expect(ctx, hoist) == got and got[0] == "exc" and exp[0] == "exc":
             return "dependency-hoisting-changes-which-exception-escapes(F-02)"
+        if ctx_expect(ctx, hoist) == got and _has_try(term):
+            # the same reordering inside a try: the exception that is raised first is a different one, so a different
+            # handler (or none) catches it and the VALUE differs (needs >= 5 nodes: thorough tier only)
+            return "dependency-hoisting-changes-which-handler-catches(F-02)"
     except (progs.Diverges, RecursionError):
         pass
     # F-01b: fn parameters whose names munge alike
@@ -318,6 +322,10 @@ def families(hole_size):
         out.append(("handler-throws", ("try", ("try", h, ("throw",)), ("var", 0))))
         out.append(("if-truthiness", ("if", h, ("one",), ("nil",))))
     return out
+
+
+def _has_try(t):
+    return t[0] == "try" or any(_has_try(c) for c in t[1:] if isinstance(c, tuple))
 
 
 def _uses_var(t):
